@@ -575,7 +575,20 @@ SCENARIOS = [
     ("PT", "put_tag:v3:M3+gc"), ("PT", "tag_delete:v2+gc"), ("PT", "copy:v3:m3+gc"), ("PT", "blob_delete:L4"),
     # copy inside one layout (retag): new tag, and an existing tag moved to another image (+GC of the old one)
     ("P2", "retag:v3:v1"), ("P2", "retag:v2:v1+gc"),
+    # --- input dimensions (design.d/C07.md "Input dimensions") ---
+    # content that does not match its descriptor: wrong digest (true size), wrong size (true digest), manifest
+    # pushed to a digest reference that is not its digest - the operation must fail and leave O1-O4 intact
+    ("P1", "blob_bad:L3:L2:digest"), ("E", "blob_bad:L3:L4:digest"), ("P1", "blob_bad:L4:L4:size"),
+    ("E0", "blob_bad:L3:L3:size"), ("P2", "man_bad:M3:M2"),
+    # descriptor completeness: neither digest nor size (computed by the layout), digest without size
+    ("P1", "blob_put:L3:nd"), ("E", "blob_put:L4:nd"), ("P1", "blob_put:L3:ns"),
+    # size boundaries: empty blob (no write call), exactly one copy buffer, one byte more
+    ("P1", "blob_put:L0"), ("E", "blob_put:L0:nd"), ("P1", "blob_put:LK"), ("P1", "blob_put:LK1"),
+    # spelling of the target reference: relative path (the GC state is keyed by the path), tag and digest together
+    ("P1", "put_tag:v2:M2+gc~rel"), ("P2", "tag_delete:v2+gc~rel"), ("E", "copy:v1:m1+gc~rel"),
+    ("P1", "import:v2:m2+gc~rel"), ("PR", "man_delete:A1+gc~rel"), ("P1", "put_tag:v2:M2~td"),
 ]
+EXPECT_FAIL = ("blob_bad", "man_bad")
 STATES = ["E", "E0", "P1", "P2", "PX", "PR", "PR2", "PT"]
 
 
@@ -585,11 +598,18 @@ def fallback_tag(ab, subj):
 
 def op_info(ab, op, pre):
     """What the operation is meant to achieve, as header fields for (P). pre: tag -> name."""
+    op = op.split("~")[0]
     a = op[:-3].split(":") if op.endswith("+gc") else op.split(":")
     kind = a[0]
     h = {"kind": kind, "optag": "", "opobj": "", "subj": "", "fbtag": "", "wantrefs": [], "norefs": [], "tgt": []}
     if kind in ("blob_put", "blob_delete", "put_digest", "put_child"):
         h["opobj"] = a[1]
+    elif kind == "blob_bad":
+        h["opobj"] = a[1]          # the object whose digest is claimed
+        h["dobj"] = a[2]           # the bytes really sent (for the design spec: number of write calls)
+    elif kind == "man_bad":
+        h["opobj"] = a[1]
+        h["dobj"] = a[2]
     elif kind == "retag":
         h.update(optag=a[1], opobj=pre.get(a[2], ""), tgt=[a[1]])
     elif kind in ("put_tag", "put_index"):
@@ -1059,7 +1079,7 @@ def run(ctx):
         scenarios = [(rp["scenario"]["start"], rp["scenario"]["op"])]
     runs = run_all(env, scenarios)
     for r in runs:
-        if not r.res["ok"]:
+        if not r.res["ok"] and r.op.split(":")[0] not in EXPECT_FAIL:
             raise vlib.ToolError("scenario %s %s does not run on this tree (uninterrupted operation failed: %s)"
                                  % (r.start, r.op, r.res["err"]))
     mode = marker_mode(runs)
@@ -1255,8 +1275,8 @@ def run(ctx):
 
 def dtrace_of(ab, r):
     info = r.info
-    hdr = {"start": r.start, "kind": info["kind"], "t": info["optag"], "o": info["opobj"],
-           "gc": 1 if r.op.endswith("+gc") else 0}
+    hdr = {"start": r.start, "kind": info["kind"], "t": info["optag"], "o": info.get("dobj", info["opobj"]),
+           "gc": 1 if "+gc" in r.op else 0}
     evs = []
     for e in r.events:
         obj = ""
